@@ -305,6 +305,37 @@ class Gamma(Ref):
         return self.icdf_numeric(p, self.loc, hi)
 
 
+class ExponWeibS(Ref):
+    """scipy's exponweib(a, c, loc, scale): F(x) = (1 - exp(-z^c))^a, z = (x - loc) / scale (two shape parameters)."""
+    names = ("a", "c", "loc", "scale")
+
+    def __init__(self, a, c, loc, scale):
+        self.a, self.c, self.loc, self.sc = mp.mpf(a), mp.mpf(c), mp.mpf(loc), mp.mpf(scale)
+        self.lower = self.loc
+
+    def cdf(self, x):
+        x = mp.mpf(x)
+        if x <= self.loc:
+            return _0
+        return (-mp.expm1(-((x - self.loc) / self.sc) ** self.c)) ** self.a
+
+    def pdf(self, x):
+        x = mp.mpf(x)
+        if x <= self.loc:
+            return _0
+        z = (x - self.loc) / self.sc
+        zc = z ** self.c
+        return self.a * self.c / self.sc * z ** (self.c - 1) * mp.exp(-zc) * (-mp.expm1(-zc)) ** (self.a - 1)
+
+    def icdf(self, p):
+        p = mp.mpf(p)
+        if p <= 0:
+            return self.loc
+        if p >= 1:
+            return mp.inf
+        return self.loc + self.sc * (-mp.log1p(-p ** (1 / self.a))) ** (1 / self.c)
+
+
 class WeibullMin(Weibull):
     names = ("c", "loc", "scale")
 
@@ -323,4 +354,5 @@ REF = {
     "GumbelR": Gumbel,
     "GammaS": Gamma,
     "WeibullMinS": WeibullMin,
+    "ExponWeibS": ExponWeibS,
 }
